@@ -56,6 +56,8 @@ class KademliaRPC:
         return b'pong'
 
     def store(self, rpc_contact: 'KademliaPeer', blob_hash: bytes, token: bytes, port: int) -> bytes:
+        if not isinstance(blob_hash, bytes):
+            raise ValueError(f"invalid type of blob hash: {type(blob_hash)}")
         if len(blob_hash) != constants.HASH_BITS // 8:
             raise ValueError(f"invalid length of blob hash: {len(blob_hash)}")
         if not 0 < port < 65535:
@@ -73,6 +75,8 @@ class KademliaRPC:
         return b'OK'
 
     def find_node(self, rpc_contact: 'KademliaPeer', key: bytes) -> typing.List[typing.Tuple[bytes, str, int]]:
+        if not isinstance(key, bytes):
+            raise ValueError("invalid contact node_id type: %s" % type(key))
         if len(key) != constants.HASH_LENGTH:
             raise ValueError("invalid contact node_id length: %i" % len(key))
 
@@ -85,6 +89,8 @@ class KademliaRPC:
     def find_value(self, rpc_contact: 'KademliaPeer', key: bytes, page: int = 0):
         page = page if page > 0 else 0
 
+        if not isinstance(key, bytes):
+            raise ValueError("invalid blob_exchange hash type: %s" % type(key))
         if len(key) != constants.HASH_LENGTH:
             raise ValueError("invalid blob_exchange hash length: %i" % len(key))
 
